@@ -67,6 +67,59 @@ theorem C12_list_refines_multiset (eq : Val → Val → Bool) (dtor cmp : Bool) 
   have := ListM.run_R eq ops (ListM.init_R dtor cmp) h
   exact ⟨this.2, content_of_R this.1⟩
 
+/-- First in, first out, said directly: in a history of `enq`/`deq`/`peek`/`len` calls the pointers
+handed back by `deq`, in the order of the calls, followed by the content of the queue, are exactly
+the pointers enqueued, in the order of the `enq` calls. -/
+theorem C12_queue_fifo_order (dtor : Bool) (ops : List Queue.Op)
+    (hp : ops.all (fun o => match o with | .enq _ | .deq | .peek | .len => true | _ => false) = true) :
+    let L := Spec.C12.Queue.ledger (Spec.C12.Queue.init dtor) {} ops
+    L.entered = L.handed ++ content (Queue.run (Queue.new dtor) ops) := by
+  intro L
+  have hok : ∀ (ops : List Queue.Op) (s : St),
+      ops.all (fun o => match o with | .enq _ | .deq | .peek | .len => true | _ => false) = true → s.itr = none →
+      Queue.okRun s ops = true ∧ (Queue.run s ops).itr = none := by
+    intro ops
+    induction ops with
+    | nil => intro s _ hi; exact ⟨rfl, hi⟩
+    | cons o os ih =>
+      intro s hp hi
+      simp only [List.all_cons, Bool.and_eq_true] at hp
+      have hi' : (Queue.step s o).1.itr = none := by
+        cases o <;> simp at hp
+        · simp only [Lm.Struct.Queue.step, Queue.enqueue]; split <;> (try split) <;> exact hi
+        · simp only [Lm.Struct.Queue.step, Queue.dequeue]; split <;> (try split) <;> (try split) <;> exact hi
+        · simp only [Lm.Struct.Queue.step, Lm.Struct.peek]; split <;> (try split) <;> (try split) <;> exact hi
+        · exact hi
+      have := ih (Queue.step s o).1 hp.2 hi'
+      exact ⟨by simp [Queue.okRun, Queue.okOp, hi, this.1], by simpa [Lm.Struct.Queue.run] using this.2⟩
+  have hr := C12_queue_refines_fifo dtor ops (hok ops _ hp rfl).1
+  rw [hr.2.1]
+  -- on the array machine
+  have key : ∀ (ops : List Queue.Op) (a : ASt) (L : Ledger),
+      ops.all (fun o => match o with | .enq _ | .deq | .peek | .len => true | _ => false) = true →
+      L.entered = L.handed ++ a.xs →
+      (Spec.C12.Queue.ledger a L ops).entered = (Spec.C12.Queue.ledger a L ops).handed ++ (Spec.C12.Queue.run a ops).xs := by
+    intro ops
+    induction ops with
+    | nil => intro a L _ h; exact h
+    | cons o os ih =>
+      intro a L hp h
+      simp only [List.all_cons, Bool.and_eq_true] at hp
+      simp only [Spec.C12.Queue.ledger, Spec.C12.Queue.run, List.foldl_cons]
+      apply ih _ _ hp.2
+      cases o <;> simp at hp
+      · simp only [Spec.C12.Queue.step, Spec.C12.Queue.ledgerStep]
+        split
+        · simp [h]
+        · exact h
+      · simp only [Spec.C12.Queue.step, Spec.C12.Queue.ledgerStep, takeFirst]
+        cases hx : a.xs with
+        | nil => simpa [hx] using h
+        | cons x r => simp [h, hx]
+      · simp only [Spec.C12.Queue.step, Spec.C12.Queue.ledgerStep, Spec.C12.peek]; split <;> exact h
+      · exact h
+  exact key ops _ _ hp rfl
+
 /-- Lengths are exact: what `m_*_len` reports is the number of elements (or `-EINVAL` for NULL). -/
 theorem C12_len_exact {k : Kind} {s : St} (h : WellFormed k s) :
     cLen s.obj = (match s.obj with | some _ => ((content s).length : Int) | none => EINVAL) := by
